@@ -574,7 +574,9 @@ def gen_memo():
         ("exprarr", "ExprArray", [(r"", r"evaluate\(self\.ctx\.clone\(\),&self\.src\[index\]\)")]),
         ("mapped", "MappedArray",
          [(rf"let (?P<tmp>{ID})=self\.inner\.get\(index\)\.transpose\(\)\.expect\(\"[^\"]*\"\)"
-           rf"\.and_then\(\|({ID})\|self\.evaluate\(index,\2\)\);", r"")]),
+           rf"\.and_then\(\|({ID})\|self\.evaluate\(index,\2\)\);", r""),
+          # since repo 9dc676b: the element is handed to the callback as the inner array's lazy handle
+          (rf"let (?P<tmp>{ID})=self\.evaluate\(index,self\.inner\.get_lazy\(index\)\.expect\(\"[^\"]*\"\)\);", r"")]),
     ):
         site = Site(name, "ArrayThunk", cell_read="&self.cached.borrow()[index]",
                     cell_write="self.cached.borrow_mut()[index]", closures=closures, wrap_some=True,
